@@ -7,7 +7,9 @@ import TTV.Drv.C06
   `(textrepr <isBytes> <ml> (np…) (c…))`             ml = `none` | `(some T|F)`
   `(assert <api> ((base suffix)…) <mismatch> [<after> <tearDown> (<cleanup>…)])`   mismatch = `none` | `(some (d…))`,
                                                      acts = ret|skip|xfail|uxsuccess|failure|error|interrupt
+  `(ctor <class> <row> <variant> <matchee> <annotated> <verbose>)`   a stock matcher built from the harness's table of constructor-argument shapes
 Traces
+  `(ctor <str> <describe> <details> <errStr>)`
   `(describe <str> <matched> <describe> <details> <errStr>)`   result = `ok` | `(raised Cls)`
   `(textrepr (out…) <back> (repr…) <reprBack>)`                back = `none` | `(some (c…))`
   `(assert <raised> <continued> ((base suffix)…) <forceFailure> <outcome> <propagated>)` -/
@@ -50,6 +52,8 @@ def input? : Sexp → Option Input
       some (.describe (← C06.m? m) (← C06.v? v) (← bool? a) (← bool? vb))
   | .list [.atom "textrepr", b, ml, np, s] => do
       some (.textRepr (← bool? b) (← opt? bool? ml) (← list? nat? np) (← list? nat? s))
+  | .list [.atom "ctor", .atom cls, r, v, m, a, vb] => do
+      some (.ctor cls (← nat? r) (← nat? v) (← nat? m) (← bool? a) (← bool? vb))
   | .list [.atom "assert", api, ex, mm] => do
       some (.assert { api := ← api? api, existing := ← list? name? ex, mismatch := ← opt? (list? nat?) mm })
   | .list [.atom "assert", api, ex, mm, af, td, cs] => do
@@ -62,6 +66,7 @@ def trace? : Sexp → Option Trace
       some (.describe (← r? s) (← C06.verdict? m) (← r? d) (← r? g) (← r? e))
   | .list [.atom "textrepr", o, b, r, rb] => do
       some (.textRepr (← list? nat? o) (← opt? (list? nat?) b) (← list? nat? r) (← opt? (list? nat?) rb))
+  | .list [.atom "ctor", s, d, g, e] => do some (.ctor (← r? s) (← r? d) (← r? g) (← r? e))
   | .list [.atom "assert", r, c, ns, ff, o, pr] => do
       some (.assert { raised := ← bool? r, continued := ← bool? c, names := ← list? name? ns,
                       forceFailure := ← bool? ff, outcome := ← outcome? o, propagated := ← bool? pr })
@@ -70,6 +75,7 @@ def trace? : Sexp → Option Trace
 def ofTrace : Trace → Sexp
   | .describe s m d g e => tag "describe" [ofR s, C06.ofVerdict m, ofR d, ofR g, ofR e]
   | .textRepr o b r rb => tag "textrepr" [ofList ofNat o, ofOpt (ofList ofNat) b, ofList ofNat r, ofOpt (ofList ofNat) rb]
+  | .ctor s d g e => tag "ctor" [ofR s, ofR d, ofR g, ofR e]
   | .assert o => tag "assert" [ofBool o.raised, ofBool o.continued, ofList ofName o.names, ofBool o.forceFailure,
                                ofOutcome o.outcome, ofBool o.propagated]
 
